@@ -38,6 +38,8 @@ type z =
 | Zpos of positive
 | Zneg of positive
 
+val eqb : bool -> bool -> bool
+
 module Nat :
  sig
   val sub : nat -> nat -> nat
@@ -180,6 +182,8 @@ module Z :
 
   val min : z -> z -> z
 
+  val abs_N : z -> n
+
   val to_nat : z -> nat
 
   val to_N : z -> n
@@ -209,15 +213,21 @@ val flat_map : ('a1 -> 'a2 list) -> 'a1 list -> 'a2 list
 
 val fold_left : ('a1 -> 'a2 -> 'a1) -> 'a2 list -> 'a1 -> 'a1
 
+val existsb : ('a1 -> bool) -> 'a1 list -> bool
+
 val forallb : ('a1 -> bool) -> 'a1 list -> bool
 
 val filter : ('a1 -> bool) -> 'a1 list -> 'a1 list
 
 val find : ('a1 -> bool) -> 'a1 list -> 'a1 option
 
+val combine : 'a1 list -> 'a2 list -> ('a1 * 'a2) list
+
 val firstn : nat -> 'a1 list -> 'a1 list
 
 val skipn : nat -> 'a1 list -> 'a1 list
+
+val seq : nat -> nat -> nat list
 
 val repeat : 'a1 -> nat -> 'a1 list
 
@@ -231,6 +241,8 @@ val n_of_ascii : ascii -> n
 type string =
 | EmptyString
 | String of ascii * string
+
+val append : string -> string -> string
 
 type exn =
 | DecoderError
@@ -279,8 +291,6 @@ val split_char : n -> str -> str list
 val join : str -> str list -> str
 
 val prefix_of : str -> str -> bool
-
-val contains : str -> str -> bool
 
 val last_char : str -> n option
 
@@ -569,9 +579,11 @@ val write_roots :
 
 val mol_to_smiles : dmol -> (str * amap list) res
 
+val tokenize_all : str -> bool -> (str list * exn option) list
+
 val derive_frags :
-  table -> bool -> bool -> str list -> dmol -> ringreq list -> nat ->
-  (dmol * ringreq list) res
+  table -> bool -> (str list * exn option) list -> dmol -> ringreq list ->
+  nat -> (dmol * ringreq list) res
 
 val decode_graph : table -> str -> bool -> bool -> dmol res
 
@@ -640,3 +652,163 @@ val batch_selfies_to_flat_hot :
 val chunks : nat -> nat -> z list -> z list list
 
 val batch_flat_hot_to_selfies : z list list -> (z * str) list -> str list res
+
+type satom = { sa_elem : str; sa_arom : bool; sa_iso : n option;
+               sa_chi : str option; sa_h : n option; sa_charge : z }
+
+type slot = { sl_to : nat; sl_order2 : z; sl_mark : n option; sl_ring : bool }
+
+type smol = { sm_atoms : satom list; sm_nbrs : slot list list }
+
+val is_digit : n -> bool
+
+val is_up : n -> bool
+
+val is_low : n -> bool
+
+val dval : n -> n
+
+val take_while : (n -> bool) -> str -> str * str
+
+val number : str -> n
+
+val organic : str list
+
+val aromatic_organic : str list
+
+val aromatic_bracket : str list
+
+val cap_first : str -> str
+
+val read_chi : str -> str option * str
+
+val parse_bracket : str -> satom option
+
+type stok =
+| TAtom of satom
+| TBond of z * n option
+| TOpen
+| TClose
+| TDot
+| TRing of n
+
+val split_at_rb : str -> (str * str) option
+
+val plain : str -> bool -> satom
+
+val lex_smiles : nat -> str -> stok list option
+
+type rstate = { r_atoms : satom list; r_nbrs : slot option list list;
+                r_prev : nat option; r_stack : nat option list;
+                r_pend : (z * n option) option;
+                r_open : (n * ((nat * nat) * (z * n option) option)) list }
+
+val set_slot : slot option list -> nat -> slot -> slot option list
+
+val lookupN : n -> (n * 'a1) list -> 'a1 option
+
+val removeN : n -> (n * 'a1) list -> (n * 'a1) list
+
+val default_order : satom -> satom -> z
+
+val step : rstate -> stok -> rstate option
+
+val steps : rstate -> stok list -> rstate option
+
+val all_some : 'a1 option list -> 'a1 list option
+
+val all_some_rows : 'a1 option list list -> 'a1 list list option
+
+val last_ok : stok list -> bool
+
+val no_double_dot : stok list -> bool
+
+val first_ok : stok list -> bool
+
+val read_smiles : str -> smol option
+
+val has_dup : nat list -> bool
+
+val simple_graph : smol -> bool
+
+val cap_key : satom -> str
+
+val capacity : (str * z) list -> satom -> z option
+
+val bond_sum2 : slot list -> z
+
+val valence_ok : (str * z) list -> smol -> bool
+
+val kekule_form : smol -> bool
+
+val valid_smiles_under : (str * z) list -> str -> bool
+
+val bond_prefixes : (string * z) list
+
+val branch_symbols : (str * z) list
+
+val ring_len : str -> nat
+
+val stereo_pairs : ((string * n option) * n option) list
+
+val ring_symbols : (str * ((z * n option) * n option)) list
+
+val epsilon_symbol : str
+
+val nop_symbol : str
+
+val is_nz_digit : n -> bool
+
+val strip_brackets : str -> str option
+
+val read_prefix : str -> (z * n option) * str
+
+val read_h : str -> (n option * str) option
+
+val read_charge : str -> z option
+
+val parse_atom_symbol : str -> ((z * n option) * satom) option
+
+val alpha : (str * z) list -> satom -> z option
+
+type ringq = { q_l : nat; q_r : nat; q_order : z; q_lm : n option;
+               q_rm : n option }
+
+type dstate = { d_atoms : (satom * z) list; d_nbrs : slot list list;
+                d_parent : bool list; d_rings : ringq list }
+
+val d_empty : dstate
+
+val read_Q : str list -> nat -> nat -> n * nat
+
+val skip : str list -> nat -> nat option -> nat
+
+val dec : nat option -> nat -> nat option
+
+val dd :
+  (str * z) list -> str list -> nat -> nat -> nat option -> z -> nat option
+  -> dstate -> (nat * dstate) res
+
+val used : slot list -> z
+
+val set_order2 : slot list -> nat -> z -> slot list
+
+val ring_count : slot list -> nat
+
+val form_one : dstate -> ringq -> dstate
+
+val fragments : str list -> str list -> str list list
+
+val derive_all : (str * z) list -> str list list -> dstate -> dstate res
+
+val grammar_eval : (str * z) list -> str list -> smol res
+
+val opt_eqb : ('a1 -> 'a1 -> bool) -> 'a1 option -> 'a1 option -> bool
+
+val satom_eqb : satom -> satom -> bool
+
+val slot_eqb : slot -> slot -> bool
+
+val list_eqb : ('a1 -> 'a1 -> bool) -> 'a1 list -> 'a1 list -> bool
+
+val smol_eqb : smol -> smol -> bool
